@@ -623,8 +623,12 @@ zif_find_zrng(zif_t z, stamp_t t)
 static stamp_t
 __tai_offs(stamp_t t)
 {
-	/* difference of TAI and UTC at epoch instant */
-	zidx_t zi = leaps_before_si32(leaps_s, nleaps_corr, t);
+	/* difference of TAI and UTC at epoch instant,
+	 * the table is 32 bits wide, clamp T rather than truncating it so
+	 * that later instants keep the last correction */
+	const int32_t key = t > INT32_MAX ? INT32_MAX
+		: t < INT32_MIN ? INT32_MIN : (int32_t)t;
+	zidx_t zi = leaps_before_si32(leaps_s, nleaps_corr, key);
 
 	return leaps_corr[zi];
 }
